@@ -430,6 +430,24 @@ func checkAssocConstants(c *Ctx, ev *evaluator, rule string) {
 				return true
 			})
 		}
+		if len(got) == 0 {
+			// the level may be built by a helper of the package: is an Associativity field set anywhere below this case?
+			deep := false
+			for _, st := range cs.clause.Body {
+				deepInspectNode(ev.pkg, st, 3, func(nd ast.Node) bool {
+					if kv, ok := nd.(*ast.KeyValueExpr); ok {
+						if id, ok := kv.Key.(*ast.Ident); ok && id.Name == "Associativity" {
+							deep = true
+						}
+					}
+					return true
+				})
+			}
+			if deep {
+				undecided = true
+				got = append(got, "<set in a helper>")
+			}
+		}
 		if undecided {
 			c.Undecided(rule, fmt.Sprintf("%s: production %d (%s) records associativity %s", trimMod(ev.pkg.PkgPath), i, cs.prod, w), cs.clause.Pos(), fmt.Sprintf("the associativity is computed by %v, which was not understood", got))
 			continue
